@@ -210,7 +210,7 @@ func replayC10(c *Ctx, rule string, raw json.RawMessage) {
 }
 
 func runC10(c *Ctx, phase string) {
-	n := c.Pick(4000, 80000)
+	n := c.Pick(8000, 80000)
 	maxDNF := int64(c.Pick(256, 2048))
 	c.Meta("e1 from the C01 tree generator (k<=6 terms); e2 = e1 after 1..6 seeded rewrites at random positions: commute, re-associate, idempotence, absorption, distribution of AND over OR (both directions), "+
 		"plus redundant parentheses and extra spaces through independent renderings; both judged under all 2^k-1 subsets of the terms; ExtractLicenses sets compared for term-preserving rewrites; "+
